@@ -99,7 +99,7 @@ def relevant_labels(txn):
     return out
 
 
-def check_txn_against(ctxs, fam, txn, text, viol, where, props):
+def check_txn_against(ctxs, fam, txn, text, viol, where, props, masks=True):
     """the context family `fam` (self / atI / absI / relK) must admit the field values of txn"""
     # C09 / C10 fee
     fee = ctxs.get(fam + ":Fee", str(MAXU))
@@ -116,15 +116,15 @@ def check_txn_against(ctxs, fam, txn, text, viol, where, props):
     # C07 / C10 kinds (with the D16 masks)
     ts = set(ctxs.get(fam + ":TransactionType", ALL_TYPES).split(",")) if ctxs.get(fam + ":TransactionType", ALL_TYPES) else set()
     for lab in relevant_labels(txn):
-        if lab in ("Pay", "Axfer") and re.search(r"\b(OnCompletion|ApplicationID)\b", text):
+        if masks and lab in ("Pay", "Axfer") and re.search(r"\b(OnCompletion|ApplicationID)\b", text):
             continue  # known finding D16: OnCompletion/ApplicationID comparisons drop Pay/Axfer
-        if lab.startswith("Appl") and re.search(r"\b(TypeEnum|ApplicationID)\b", text):
+        if masks and lab.startswith("Appl") and re.search(r"\b(TypeEnum|ApplicationID)\b", text):
             continue  # known finding D16: TypeEnum/ApplicationID comparisons drop Appl<OnCompletion> labels
         if lab not in ts:
             viol.append((props["type"], f"{where}: {fam}:TransactionType = {sorted(ts)} lacks {lab} of an approved transaction"))
 
 
-def check_program(text, impl, envs, mask_addr_runtime=False):
+def check_program(text, impl, envs, masks=True):
     """returns (violations, stats). impl: implementation's analyze JSON for `text`."""
     viol = []
     stats = {"envs": 0, "approved": 0, "unsupported": 0, "facts": 0}
@@ -185,13 +185,13 @@ def check_program(text, impl, envs, mask_addr_runtime=False):
                 v.append(("C06", f"{where}: group sizes [{sizes}] lack approved size {size}"))
             if str(i) not in idxs.split(","):
                 v.append(("C06", f"{where}: group indices [{idxs}] lack approved index {i}"))
-            check_txn_against(ctxs, "self", me, text, v, where, {"fee": "C09", "addr": "C08", "type": "C07"})
-            check_txn_against(ctxs, f"at{i}", me, text, v, where + f" gtxn_context({i})", {"fee": "C10", "addr": "C10", "type": "C10"})
+            check_txn_against(ctxs, "self", me, text, v, where, {"fee": "C09", "addr": "C08", "type": "C07"}, masks)
+            check_txn_against(ctxs, f"at{i}", me, text, v, where + f" gtxn_context({i})", {"fee": "C10", "addr": "C10", "type": "C10"}, masks)
             for j in range(size):
-                check_txn_against(ctxs, f"abs{j}", group[j], text, v, where + f" absolute_context({j})", {"fee": "C10", "addr": "C10", "type": "C10"})
+                check_txn_against(ctxs, f"abs{j}", group[j], text, v, where + f" absolute_context({j})", {"fee": "C10", "addr": "C10", "type": "C10"}, masks)
             for k in range(-15, 16):
                 if k != 0 and 0 <= i + k < size:
-                    check_txn_against(ctxs, f"rel{k}", group[i + k], text, v, where + f" relative_context({k})", {"fee": "C10", "addr": "C10", "type": "C10"})
+                    check_txn_against(ctxs, f"rel{k}", group[i + k], text, v, where + f" relative_context({k})", {"fee": "C10", "addr": "C10", "type": "C10"}, masks)
             stats["facts"] += 3 * (1 + 1 + size)
         # C01: detectors
         paths = impl.get("paths", {})
@@ -202,13 +202,13 @@ def check_program(text, impl, envs, mask_addr_runtime=False):
         t = me["TypeEnum"]
         if me["RekeyTo"][1] == FRESH and silent("rekey-to"):
             v.append(("C01", "rekey-to silent although a group with RekeyTo = fresh address is approved"))
-        if me["CloseRemainderTo"][1] == FRESH and t == 1 and silent("can-close-account") and not re.search(r"\b(OnCompletion|ApplicationID)\b", text):
+        if me["CloseRemainderTo"][1] == FRESH and t == 1 and silent("can-close-account") and not (masks and re.search(r"\b(OnCompletion|ApplicationID)\b", text)):
             v.append(("C01", "can-close-account silent although a pay with CloseRemainderTo = fresh address is approved"))
-        if me["AssetCloseTo"][1] == FRESH and t == 4 and silent("can-close-asset") and not re.search(r"\b(OnCompletion|ApplicationID)\b", text):
+        if me["AssetCloseTo"][1] == FRESH and t == 4 and silent("can-close-asset") and not (masks and re.search(r"\b(OnCompletion|ApplicationID)\b", text)):
             v.append(("C01", "can-close-asset silent although an axfer with AssetCloseTo = fresh address is approved"))
         if me["Fee"] > MTC and silent("missing-fee-check"):
             v.append(("C01", f"missing-fee-check silent although Fee = {me['Fee']} is approved"))
-        d16 = re.search(r"\b(TypeEnum|ApplicationID)\b", text)
+        d16 = masks and re.search(r"\b(TypeEnum|ApplicationID)\b", text)
         if t == 6 and me["OnCompletion"] == 4 and not d16:
             if silent("is-updatable"):
                 v.append(("C01", "is-updatable silent although an UpdateApplication call is approved"))
@@ -221,7 +221,7 @@ def check_program(text, impl, envs, mask_addr_runtime=False):
                 v.append(("C01", "unprotected-deletable silent although a DeleteApplication call from a fresh sender is approved"))
         # known finding D21: an absolute-index read that only lies on a cycle (loop body / repeated call) is cut
         # away by the per-activation loop cut, so only acyclic block traces are judged here
-        if size == 16 and len(set(blocks)) == len(blocks) and any(b in abs_blocks for b in blocks) and silent("group-size-check"):
+        if size == 16 and (len(set(blocks)) == len(blocks) or not masks) and any(b in abs_blocks for b in blocks) and silent("group-size-check"):
             v.append(("C01", "group-size-check silent although a group of 16 reading by absolute index is approved"))
         stats["facts"] += 9
         for pid, msg in v:
